@@ -226,16 +226,23 @@ def AdaptOk (online : List Player) : Effect → Prop
   | _ => True
 
 /-- The repaired adapter writes, per effect, exactly the packets Velocity writes: a response on that player's backend
-    connection; a Forward payload ONCE on the backend connection of a player connected to the target server
-    (never to clients); a connection request / disconnect / chat message for the addressed player. -/
-theorem adapter_refines_reference (online : List Player) (pick : List Player → Option Player) (e : Effect)
-    (h : AdaptOk online e) : adapt ⟨true⟩ online pick e = specAdapt online pick e := by
+    connection; a Forward payload ONCE on the backend connection of a player that is LISTED on the target server AND
+    currently connected to it (never to clients, never through a player whose current server is another one); a
+    connection request / disconnect / chat message for the addressed player.  `listed` (the servers' player lists)
+    and the players' current connections are independent relations. -/
+theorem adapter_refines_reference (online : List Player) (listed : Bytes → List Player)
+    (pick : List Player → Option Player) (e : Effect)
+    (h : AdaptOk online e) : adapt repairedA online listed pick e = specAdapt online listed pick e := by
   cases e with
   | respond c d => rfl
   | broadcast s d =>
     have hd : d.isEmpty = false := by cases d <;> simp_all [AdaptOk]
-    simp only [adapt, specAdapt, hd]
-    cases pick (onServer online s) <;> rfl
+    simp only [adapt, specAdapt, hd, repairedA, carriers]
+    show (match pick (List.filter (isOn s) (listed s)) with
+          | some p => [Write.backendPlugin p.name cLegacy d] | none => []) =
+         (match pick (List.filter (isOn s) (listed s)) with
+          | some p => [Write.backendPlugin p.name cLegacy d] | none => [])
+    rfl
   | connect p s =>
     simp only [AdaptOk] at h
     cases hf : online.find? (·.name == p) with
@@ -246,12 +253,39 @@ theorem adapter_refines_reference (online : List Player) (pick : List Player →
   | msgPlayer p c => rfl
   | msgServer s c => exact absurd h (by simp [AdaptOk])
 
-/-- A Forward to a server with at least one connected player produces exactly one packet, on a backend connection. -/
-theorem forward_reaches_backend_once (online : List Player) (pick : List Player → Option Player) (srv data : Bytes)
-    (p : Player) (hd : data ≠ []) (hp : pick (onServer online srv) = some p) :
-    adapt ⟨true⟩ online pick (.broadcast srv data) = [.backendPlugin p.name cLegacy data] := by
-  have : data.isEmpty = false := by cases data <;> simp_all
-  simp [adapt, this, hp]
+/-- A Forward produces at most one packet; when some listed player is currently connected to the target server it is
+    exactly one, and it travels on the backend connection of such a player — a connection TO THE TARGET SERVER —
+    whatever the state of the two relations (in particular while another player is mid server switch). -/
+theorem forward_reaches_backend_once (online : List Player) (listed : Bytes → List Player)
+    (pick : List Player → Option Player) (hpick : ∀ l p, pick l = some p → p ∈ l) (srv data : Bytes) (hd : data ≠ []) :
+    (adapt repairedA online listed pick (.broadcast srv data) = [] ∧ pick (carriers listed srv) = none) ∨
+    (∃ p c, adapt repairedA online listed pick (.broadcast srv data) = [.backendPlugin p.name cLegacy data] ∧
+        p ∈ listed srv ∧ p.conn = some c ∧ c.server = srv) := by
+  have hde : data.isEmpty = false := by cases data <;> simp_all
+  cases hp : pick (carriers listed srv) with
+  | none => left; simp [adapt, repairedA, hde, hp]
+  | some p =>
+    right
+    have hm := hpick _ _ hp
+    simp only [carriers, List.mem_filter, isOn] at hm
+    cases hc : p.conn with
+    | none => simp [hc] at hm
+    | some c =>
+      refine ⟨p, c, by simp [adapt, repairedA, hde, hp], hm.1, hc, ?_⟩
+      simpa [hc] using hm.2
+
+/-- With a connected, listed player on the target the Forward IS delivered (the picker finds someone in a non-empty
+    list). -/
+theorem forward_delivered_when_someone_is_there (online : List Player) (listed : Bytes → List Player)
+    (pick : List Player → Option Player) (hne : ∀ l, l ≠ [] → (pick l).isSome) (srv data : Bytes) (hd : data ≠ [])
+    (p : Player) (c : Conn) (hl : p ∈ listed srv) (hc : p.conn = some c) (hs : c.server = srv) :
+    (adapt repairedA online listed pick (.broadcast srv data)).length = 1 := by
+  have hde : data.isEmpty = false := by cases data <;> simp_all
+  have hmem : p ∈ carriers listed srv := by simp [carriers, isOn, hl, hc, hs]
+  have := hne (carriers listed srv) (List.ne_nil_of_mem hmem)
+  cases hp : pick (carriers listed srv) with
+  | none => simp [hp] at this
+  | some q => simp [adapt, repairedA, hde, hp]
 
 /-! ### 5. the code as found violates the property (kernel-checked witnesses) -/
 
@@ -317,11 +351,25 @@ theorem player_count_casefold_fails :
     (processDefective wExt wSt cLegacy (writeUTF sPlayerCount ++ writeUTF [97,108,108])).effects ≠ [] := by
   constructor <;> first | rfl | decide
 
+def wListed : Bytes → List Player := fun srv => [alice, bob].filter (isOn srv)
+
 /-- The adapter as found delivers a Forward payload to every CLIENT on the target server and never to the backend. -/
 theorem adapter_forward_to_clients_fails :
-    adapt ⟨false⟩ [alice, bob] List.head? (.broadcast wPvp [1]) = [.clientPlugin wBob cLegacy [1]] ∧
-    specAdapt [alice, bob] List.head? (.broadcast wPvp [1]) = [.backendPlugin wBob cLegacy [1]] := by
-  constructor <;> first | rfl | decide
+    adapt ⟨false, true⟩ [alice, bob] wListed List.head? (.broadcast wPvp [1]) = [.clientPlugin wBob cLegacy [1]] ∧
+    specAdapt [alice, bob] wListed List.head? (.broadcast wPvp [1]) = [.backendPlugin wBob cLegacy [1]] := by
+  constructor <;> decide
+
+/-- Mid server switch: bob is current on pvp but still LISTED on lobby (and alice has left lobby's list).  An adapter
+    that trusts the list sends `Forward lobby` through bob — i.e. to the pvp backend; the reference (and the repaired
+    adapter) deliver nothing, since nobody listed on lobby is connected to it. -/
+def wSwitching : Bytes → List Player := fun srv => if srv = wLobby then [bob] else if srv = wPvp then [bob] else []
+
+theorem adapter_trusts_player_list_fails :
+    adapt ⟨true, false⟩ [alice, bob] wSwitching List.head? (.broadcast wLobby [1]) = [.backendPlugin wBob cLegacy [1]] ∧
+    bob.conn = some ⟨wBob, wPvp, 393⟩ ∧
+    specAdapt [alice, bob] wSwitching List.head? (.broadcast wLobby [1]) = [] ∧
+    adapt repairedA [alice, bob] wSwitching List.head? (.broadcast wLobby [1]) = [] := by
+  refine ⟨?_, ?_, ?_, ?_⟩ <;> decide
 
 /-- … and the repaired code agrees with the reference on every one of these witnesses. -/
 theorem witnesses_repaired :
@@ -356,10 +404,13 @@ theorem message_target_in_source :
 theorem exact_all_in_source :
     "strings.EqualFold" ∉ Gate.Gen.C26.playerCountCalls ∧ "strings.EqualFold" ∉ Gate.Gen.C26.forwardToServerCalls := by
   decide
-/-- the adapter sends a Forward through a server connection (`conn.SendPluginMessage`), not to the player list. -/
+/-- the adapter walks the server's player list, takes each player's CURRENT server connection, compares that
+    connection's server with the target (`RegisteredServerEqual`) and only then sends through it
+    (`conn.SendPluginMessage`) — not to the player list. -/
 theorem adapter_forward_in_source :
-    "conn.SendPluginMessage" ∈ Gate.Gen.C26.adapterBroadcastCalls ∧
-    "BroadcastPluginMessage" ∉ Gate.Gen.C26.adapterBroadcastCalls := by decide
+    Gate.Gen.C26.adapterBroadcastCalls =
+      ["return", "s.s.Players", "func:{", "p.CurrentServer", "conn.Server", "RegisteredServerEqual", "return",
+       "conn.SendPluginMessage", "errors.Is", "return", "}", "s.s.Players().Range"] := by decide
 
 /-! ### 7. the hypotheses are satisfiable -/
 
